@@ -226,7 +226,16 @@ func (s *sess) idleTimeout() {
 	}
 	s.ss.Q.Take()
 	s.ss.Q.FireReadTimeout()
-	if !s.ss.WaitEnd() {
+	// Whether the session went on is read off the connection (closed, or blocked in Read again: a
+	// logical fact), not off a watchdog period: a tree whose sessions survive the timeout used to
+	// cost a full watchdog per case here (seeded changes C03-2/C03-3 ran into the child timeout).
+	closed, ok := s.ss.Q.WaitIdle(s.ss.Watchdog)
+	if !ok {
+		s.c.Hang("smtp-no-quiescence", "session neither idle nor closed after the injected idle timeout", "")
+		s.failed = true
+		return
+	}
+	if !closed || !s.ss.WaitEnd() {
 		// A server may also stay in its command loop after an idle timeout; then the client closes.
 		s.c.Count("session_continues_after_idle_timeout", 1)
 	}
